@@ -59,7 +59,7 @@ def detect(prop, name, tier="quick"):
     assert ap.returncode == 0, ap.stderr
     t0 = time.time()
     try:
-        r = sh(f"cd /verif && ./check {prop} --tier {tier}")
+        r = sh(f"cd /verif && VERIF_EVIDENCE_DIR=/verif/build/evidence-seeded ./check {prop} --tier {tier}")
     finally:
         sh("git -C /repo checkout -- .")
     lines = [l for l in r.stdout.splitlines() if l.startswith(("VIOLATION", "KNOWN-FINDING", "MACHINERY", f"[{prop}]"))]
